@@ -1251,6 +1251,63 @@ def rule_zero_iterations(repo, rep):
                   'initialisation' % detail)
 
 
+def rule_lmnn_label_encoding(repo, rep):
+  R = 'R-FRAME:lmnn-class-labels-one-encoding'
+  rep.rule(R, 'LMNN compares the per-point class codes (the inverse indices '
+           'of np.unique) with the elements of self.labels_: labels_ must be '
+           'the codes 0..C-1 (np.arange(len(unique)) or np.unique of the '
+           'codes), not the original label values - otherwise every class '
+           'whose value is not its code selects no points')
+  c = repo.get_class('LMNN')
+  f = repo.resolve_method(c, 'fit')
+  key = 'LMNN.fit:labels_'
+  U = I = None
+  for n in ast.walk(f.node):
+    if isinstance(n, ast.Assign) and isinstance(n.value, ast.Call) and \
+            canon(repo.dotted(f.module, n.value.func) or '') == \
+            canon('numpy.unique') and isinstance(n.targets[0], ast.Tuple) \
+            and len(n.targets[0].elts) == 2 and any(
+                k.arg == 'return_inverse' for k in n.value.keywords):
+      U, I = (ast.unparse(e) for e in n.targets[0].elts)
+  stores = [n for n in ast.walk(f.node) if isinstance(n, ast.Assign) and
+            ast.unparse(n.targets[0]) == 'self.labels_']
+  if U is None or not stores:
+    rep.unknown(R, key, site(f), 'label encoding idiom not found')
+    return
+  # do the helpers compare labels_ with the codes?
+  uses_codes = False
+  for mname in ('_select_targets', '_find_impostors'):
+    g = repo.resolve_method(c, mname)
+    if g is None:
+      continue
+    for lp in ast.walk(g.node):
+      if isinstance(lp, ast.For) and 'self.labels_' in ast.unparse(lp.iter) \
+              and isinstance(lp.target, ast.Name):
+        for cmp_ in ast.walk(lp):
+          if isinstance(cmp_, ast.Compare) and lp.target.id in [
+                  x.id for x in ast.walk(cmp_) if isinstance(x, ast.Name)]:
+            uses_codes = True
+  passes_codes = any(
+      isinstance(cl, ast.Call) and isinstance(cl.func, ast.Attribute) and
+      cl.func.attr in ('_select_targets', '_find_impostors', '_loss_grad')
+      and any(ast.unparse(a) == I for a in cl.args)
+      for cl in ast.walk(f.node))
+  for st_ in stores:
+    txt = ast.unparse(st_.value).replace(' ', '')
+    ok_forms = ('np.arange(len(%s))' % U, 'np.arange(%s.size)' % U,
+                'np.arange(%s.shape[0])' % U, 'np.unique(%s)' % I,
+                'range(len(%s))' % U, 'list(range(len(%s)))' % U)
+    if txt in ok_forms:
+      rep.derived(R, key, site(f, st_))
+    elif txt == U and uses_codes and passes_codes:
+      rep.refuted(R, key, site(f, st_), 'self.labels_ holds the label '
+                  'values %s while the helpers compare its elements with the '
+                  'codes %s: a class whose label differs from its code '
+                  'selects no points' % (U, I))
+    else:
+      rep.unknown(R, key, site(f, st_), 'labels_ = %s' % txt)
+
+
 def check(repo, rep, tier):
   rule_lmnn_acceptance(repo, rep)
   rule_optimizer_handoff(repo, rep)
@@ -1259,6 +1316,7 @@ def check(repo, rep, tier):
   rule_stable_softmax(repo, rep)
   rule_lmnn_objective(repo, rep)
   rule_lmnn_impostor_enumeration(repo, rep)
+  rule_lmnn_label_encoding(repo, rep)
   rule_softmax_objectives(repo, rep)
 
 
